@@ -8,7 +8,7 @@
 (* The monitor state is position-independent, so streams of any length are *)
 (* covered by a finite state graph.  MC_DecQ adds InvokeQueried (C07).     *)
 (***************************************************************************)
-EXTENDS MaxLen, TLCExt
+EXTENDS MaxLen, StrZeroing, TLCExt
 
 CONSTANTS EncName, ModeName, SinkName, Repl, Alphabet, MaxPend, Caps
 
@@ -31,10 +31,24 @@ Stage(b) ==
   /\ staged' = Append(staged, b)
   /\ UNCHANGED <<d, m, eos, hist>>
 
+\* the receivers of Layer I: decode_to_str* = decode_to_utf8* into the bytes of the &mut str followed by the clean-up of
+\* StrZeroing (K = MAX_STRIDE_SIZE = 16, skipped when the decoder's encoding is UTF-8 after the call); the destination holds
+\* the harness's filler before the call (3-byte characters, then 'y').  decode_to_string* = decode_to_utf8* into the spare
+\* capacity (the String is empty before the call; no reallocation).
+Filler(n) == [i \in 1..n |-> IF i <= 3 * (n \div 3) THEN <<226, 130, 172>>[((i - 1) % 3) + 1] ELSE 121]
+StrPost(r, cap) ==
+  LET out == ScalarsToUtf8(r.out)
+      old == Filler(cap)
+  IN  IF r.res = "P" THEN old
+      ELSE CleanUp(out \o SubSeq(old, Len(out) + 1, cap), Len(out), r.d.enc = "UTF-8", 16)
+
 EvOf(r, src, cap, last, q) ==
   [ev |-> "D", src |-> src, cap |-> cap, last |-> last, res |-> r.res, ml |-> r.ml, ma |-> r.ma, read |-> r.read,
    written |-> r.written, out |-> IF U8(SinkName) THEN ScalarsToUtf8(r.out) ELSE ScalarsToUtf16(r.out),
    had |-> r.had, enc |-> r.d.enc, q |-> q, alt |-> <<>>, guard |-> TRUE]
+  @@ (IF SinkName = "str" THEN [post |-> StrPost(r, cap)]
+      ELSE IF SinkName = "string" THEN [pre |-> <<>>, post |-> ScalarsToUtf8(r.out), same |-> TRUE]
+      ELSE <<>>)
 
 Invoke(cap, last, q) ==
   /\ Live /\ (eos => last)
@@ -65,10 +79,15 @@ NoViolation == m.viol = <<>>
 
 \* the implementation model and the Standard agree on the encoding in use once decided
 \* (the item counters w.n / wc.n grow with the stream; only their difference, lag, is state)
-\* a state with a recorded violation is never identified with one without (TLC evaluates invariants on new views only);
-\* the state after a queried call is kept apart so that one behaviour ending in it is exported for replay
-View == <<d, [m.w EXCEPT !.n = 0], [m.wc EXCEPT !.n = 0], m.avail, m.lag, m.pend, m.eos, m.done, m.desync, staged, eos, m.viol # <<>>, hist # <<>> /\ hist[Len(hist)].q>>
+\* a state with a recorded violation is never identified with one without (TLC evaluates invariants on new views only).
+\* The state after a queried call usually coincides with the state after a large fixed capacity: queried behaviours are
+\* exported per transition (ExportStep), not per state.
+View == <<d, [m.w EXCEPT !.n = 0], [m.wc EXCEPT !.n = 0], m.avail, m.lag, m.pend, m.eos, m.done, m.desync, staged, eos, m.viol # <<>>>>
 
 \* export: one behaviour (shortest, BFS) per distinct reachable state, printed as the call history
 Export == hist = <<>> \/ PrintT(<<"HIST", ToJson([new |-> NewEv, calls |-> hist])>>)
+
+\* export per transition (ACTION_CONSTRAINT, evaluated on every generated step, also on those that lead to a state already
+\* seen): the shortest history to the source state followed by this call - every (state, call) pair of the model is replayed
+ExportStep == hist' = hist \/ PrintT(<<"HIST", ToJson([new |-> NewEv, calls |-> hist'])>>)
 =============================================================================
